@@ -103,7 +103,20 @@ type StringLiteralExpression struct {
 
 func (self StringLiteralExpression) Kind() ExpressionKind { return StringLiteralExpressionKind }
 func (self StringLiteralExpression) Span() errors.Span    { return self.Range }
-func (self StringLiteralExpression) String() string       { return fmt.Sprintf("\"%s\"", self.Value) }
+func (self StringLiteralExpression) String() string {
+	return fmt.Sprintf("\"%s\"", escapeHmsString(self.Value))
+}
+
+// Escapes a string's content so that the lexer reads the same content back.
+func escapeHmsString(input string) string {
+	output := strings.ReplaceAll(input, "\\", "\\\\") // Must be first: the other replacements insert backslashes.
+	output = strings.ReplaceAll(output, "\"", "\\\"")
+	output = strings.ReplaceAll(output, "\n", "\\n")
+	output = strings.ReplaceAll(output, "\r", "\\r")
+	output = strings.ReplaceAll(output, "\t", "\\t")
+	output = strings.ReplaceAll(output, "\b", "\\b")
+	return output
+}
 
 //
 // Ident expression
